@@ -27,7 +27,7 @@ F_CHARSET = 'C09-add-charset-adopts'
 F_MEDIAVARS = 'C09-media-accepts-variables'
 F_PAGE = 'C09-page-accepts-nonmargin'
 F_TEXT = 'C09-text-replace-keeps-parent'
-F_CLEAN = 'C09-clean-refused-halfway'
+F_CLEAN = 'C09-clean-refused-halfway'   # fixed in the code by 3ec898a: the region predicate stays, it must not fire any more
 F_DEPTH2 = 'C09-parentstylesheet-depth2'
 F_INORDER = 'C09-inorder-index-not-ignored'
 
@@ -270,7 +270,7 @@ class Oracle:
         self.ctx.count('reparse-checked')
         if a != b:
             # which outstanding structural items explain a loss?
-            fs = sorted(set(v for k, v in st.explained.items() if k[0] in ('order', 'nested')))
+            fs = sorted(set(v for k, v in st.explained.items() if k[0] in ('order', 'charset', 'nested')))
             structural = [k for k in st.items if k[0] in ('order', 'charset', 'nested')]
             unexplained = [k for k in structural if k not in st.explained]
             if not unexplained:
